@@ -76,6 +76,34 @@ class Oracle:
 
 
 ORACLE: Optional[Oracle] = None
+DEFAULT_ANSWER = True          # outside `explore`: a target that runs its function once per answer sets this (see c19 drt commands)
+
+
+class _Fallback(Oracle):
+    def decide(self, what: str, key: str = "") -> bool:
+        if key and key in self.asked:
+            return self.asked[key]
+        self.log.append((What(what), DEFAULT_ANSWER))
+        if key:
+            self.asked[key] = DEFAULT_ANSWER
+        return DEFAULT_ANSWER
+
+
+_FALLBACK: Optional[_Fallback] = None
+
+
+def _fallback_oracle() -> Oracle:
+    global _FALLBACK
+    if _FALLBACK is None:
+        _FALLBACK = _Fallback([])
+    return _FALLBACK
+
+
+def reset_fallback(answer: bool):
+    """start a run outside `explore` in which every question about a term is answered `answer`"""
+    global _FALLBACK, DEFAULT_ANSWER
+    DEFAULT_ANSWER = answer
+    _FALLBACK = _Fallback([])
 
 
 def tv(x) -> z3.ExprRef:
@@ -131,9 +159,10 @@ class T:
         return T(fn(sym, 1 + len(args) + len(names))(s.e, *[tv(a) for a in args], *[tv(kw[n]) for n in names]))
 
     def _cmp(s, op, o):
-        v = ORACLE.decide(f"{op}", f"{op}({s.e}, {tv(o)})")
+        orc = ORACLE if ORACLE is not None else _fallback_oracle()
+        v = orc.decide(f"{op}", f"{op}({s.e}, {tv(o)})")
         if op == "eq":
-            ORACLE.facts.append(s.e == tv(o) if v else s.e != tv(o))
+            orc.facts.append(s.e == tv(o) if v else s.e != tv(o))
         return v
 
     def __lt__(s, o): return s._cmp("lt", o)
@@ -145,7 +174,7 @@ class T:
     __hash__ = None
 
     def __bool__(s):
-        return ORACLE.decide("truth", f"truth({s.e})")
+        return (ORACLE if ORACLE is not None else _fallback_oracle()).decide("truth", f"truth({s.e})")
 
     def __len__(s):
         return s._len if s._len is not None else 7
